@@ -111,4 +111,48 @@ theorem numBack_f64 (ft : List Char → Option (List Char)) (n : List Char)
   · intro t ht; simp [numBack, numEvent, h0, h1, ht]
   · intro ht; simp [numBack, numEvent, h0, h1, ht]
 
+/-! ## Composition: serialize a value with the crate's serializer, deserialize the result -/
+
+theorem mapNumbersM_keys (f : List Char → List Char) : ∀ (es : List (List Char × JValue)),
+    (mapNumbersM f es).map (·.1) = es.map (·.1)
+  | [] => rfl
+  | (k, x) :: es => by simp [mapNumbersM, mapNumbersM_keys f es]
+
+mutual
+theorem dePlain_mapNumbers (f : List Char → List Char) : ∀ (v : JValue), Plain v → DePlain (mapNumbers f v)
+  | .null, _ => trivial
+  | .bool _, _ => trivial
+  | .number _, _ => trivial
+  | .string _, _ => trivial
+  | .array xs, h => by simpa [mapNumbers, DePlain] using dePlainL_mapNumbers f xs h
+  | .object es, h => by
+    obtain ⟨h1, h2, h3⟩ := h
+    refine ⟨dePlainM_mapNumbers f es h1, by rw [mapNumbersM_keys]; exact h2, ?_⟩
+    rw [mapNumbersM_keys]
+    intro hh
+    apply h3
+    cases hes : es.map (·.1) with
+    | nil => rw [hes] at hh; simp at hh
+    | cons k ks => rw [hes] at hh; simp at hh; simp [hh]
+theorem dePlainL_mapNumbers (f : List Char → List Char) : ∀ (xs : List JValue), PlainL xs →
+    DePlainL (mapNumbersL f xs)
+  | [], _ => trivial
+  | x :: xs, h => ⟨dePlain_mapNumbers f x h.1, dePlainL_mapNumbers f xs h.2⟩
+theorem dePlainM_mapNumbers (f : List Char → List Char) : ∀ (es : List (List Char × JValue)), PlainM es →
+    DePlainM (mapNumbersM f es)
+  | [], _ => trivial
+  | (_, x) :: es, h => ⟨dePlain_mapNumbers f x h.1, dePlainM_mapNumbers f es h.2⟩
+end
+
+/-- `from_value::<Value>(to_value(&v))` for a plain value -/
+theorem fromValue_toValue (ft : List Char → Option (List Char)) (v : JValue) (h : Plain v) :
+    ∃ w, toValue v = .ok w ∧ fromValue ft w = .ok (backValue ft (mapNumbers numNorm v)) :=
+  ⟨_, toValue_plain v h, fromValue_plain ft _ (dePlain_mapNumbers numNorm v h)⟩
+
+theorem fromValueObject_plain (ft : List Char → Option (List Char)) (es : List (List Char × JValue))
+    (h : DePlainM es) (hnd : (es.map (·.1)).Nodup) :
+    fromValueObject ft (.object es) = .ok (.object (backValueM ft es)) := by
+  have := fromValueM_plain ft es [] h (by simpa using hnd)
+  simpa [fromValueObject] using this
+
 end JsonVerif
